@@ -176,10 +176,7 @@ def c03_4(ctx):
 def c03_5(ctx):
     fn = ctx.repo.fn('_loop:loops._wrapped')
     arg = fn.params[1]
-    chain = None
-    for n in fn.body:
-        if isinstance(n, ast.If):
-            chain = if_chain(n)
+    chain = main_chain(fn.body)
     ctx.need(chain is not None, 'dispatch chain of loops._wrapped not found')
     seen = set()
     for test, body in chain:
@@ -391,5 +388,5 @@ def c03_8(ctx):
         ok = top and prop_equiv(top[0].test, 'len(%s) > 0' % h.params[0])[0]
         if not ok:
             ctx.fail(h, top[0] if top else h.node, '%s looks at its policy when `%s`, expected whenever there is at least one index' % (name, U(top[0].test) if top else '?'))
-        elif not top[0].orelse or const(top[0].orelse[0].value, 'X') is not None:
+        elif not else_of(top[0]) or const(else_of(top[0])[0].value, 'X') is not None:
             ctx.fail(h, top[0], '%s of nothing is not None' % name)
